@@ -88,6 +88,7 @@ fn main() {
         "C13" => drive(&props::adaptive::C13, &opts),
         "C10" => drive(&props::cache::C10, &opts),
         "C11" => drive(&props::coalesce::C11, &opts),
+        "C16" => drive(&props::reconnect::C16, &opts),
         "C02" => drive(&props::ratelimiter::C02, &opts),
         "C15" => drive(&props::ratelimiter::C15, &opts),
         _ => {
